@@ -513,9 +513,20 @@ func gatesFor(site ssa.Instruction) []gate {
 	return out
 }
 
+// gateRecord: a recursive call edge cut by visited-set gates, with the functions of its cycle (for C08.R5).
+type gateRecord struct {
+	site       ssa.CallInstruction
+	gates      []gate
+	scc        []*ssa.Function
+	persistent []gate // gates whose set is never deleted from
+}
+
+var c02GateRecords []gateRecord
+
 func c02Recursion(c *Ctx, r3, r4 *RuleResult, scope map[*ssa.Function]bool) {
 	p := c.P
 	provProgram = p
+	c02GateRecords = nil
 	dyn := p.vtaCallees()
 	// intra-scope call edges
 	type edgeT struct {
@@ -578,6 +589,7 @@ func c02Recursion(c *Ctx, r3, r4 *RuleResult, scope map[*ssa.Function]bool) {
 	type edgeGate struct {
 		site  ssa.CallInstruction
 		gates []gate
+		scc   []*ssa.Function
 	}
 	var edgeGates []edgeGate
 	for ci := range recursive {
@@ -612,7 +624,7 @@ func c02Recursion(c *Ctx, r3, r4 *RuleResult, scope map[*ssa.Function]bool) {
 				egates = append(egates, g)
 			}
 			if kind == "gated" {
-				edgeGates = append(edgeGates, edgeGate{e.site, egates})
+				edgeGates = append(edgeGates, edgeGate{e.site, egates, sccs[ci]})
 			}
 			// the one link-following recursion that is cut by another rule instead of a visited set
 			if kind == "" && p.FuncName(e.from) == "ast.(*Value).Value" && e.to == e.from && loadOfField(e.site.Common().Args[0], "VariableDefinition", "DefaultValue") {
@@ -756,13 +768,16 @@ func c02Recursion(c *Ctx, r3, r4 *RuleResult, scope map[*ssa.Function]bool) {
 		seenSite[eg.site] = true
 		var del ssa.Instruction
 		var kept []string
+		rec := gateRecord{site: eg.site, gates: eg.gates, scc: eg.scc}
 		for _, g := range eg.gates {
 			if d := hasDelete(g); d != nil {
 				del = d
 			} else {
 				kept = append(kept, setName(g.setKey))
+				rec.persistent = append(rec.persistent, g)
 			}
 		}
+		c02GateRecords = append(c02GateRecords, rec)
 		site := p.FuncName(eg.site.Parent()) + " at " + p.Pos(eg.site.Pos())
 		if len(kept) > 0 {
 			r4.OK("recursive call in "+site, "visited set "+strings.Join(dedupe(kept), ", ")+" is never deleted from during the traversal")
